@@ -50,7 +50,7 @@ structure Cfg where
   hasPassword : Bool
   utf8Hook : Bool          -- screen->setXCutTextUTF8 != NULL
   deferPtr : Nat           -- screen->deferPtrUpdateTime (ms); 0 = off (default)
-  deriving Repr
+  deriving Repr, DecidableEq
 
 structure Client where
   id : Nat
@@ -65,7 +65,7 @@ structure Client where
   startSec : Nat := 0                      -- cl->startPtrDeferring
   startUsec : Nat := 0                     -- tv_usec == 0 means "not started"
   outOfModel : Bool := false               -- an input outside the modelled fragment was seen
-  deriving Repr
+  deriving Repr, DecidableEq
 
 structure Server where
   cfg : Cfg
@@ -244,22 +244,17 @@ def handleExtClip (cl : Client) (p : List UInt8) : Client :=
 
 /-- which scaled screen the client uses after `rfbScalingSetup(cl, width/scale, height/scale)`
 (`scale > 0`): `rfbScalingFind` returns the screen itself when the dimensions are unchanged;
-`rfbScaledScreenAllocate` refuses height 0 ("leaving things alone") -/
+`rfbScaledScreenAllocate` refuses width 0 or height 0 ("leaving things alone") -/
 def scaleAfter (cfg : Cfg) (sc : Option (Nat × Nat)) (s : Nat) : Option (Nat × Nat) :=
   let w := cfg.width / s
   let h := cfg.height / s
   if w = cfg.width ∧ h = cfg.height then none
-  else if h = 0 then sc
-  else if w = 0 then sc
+  else if w = 0 ∨ h = 0 then sc
   else some (w, h)
 
-/-- `rfbScalingSetup`; a zero-width scaled screen (width/scale = 0 < height/scale) runs into
-undefined behaviour in scale.c (division by zero, signed overflow): outside this model -/
+/-- `rfbScalingSetup` -/
 def setScale (cfg : Cfg) (cl : Client) (s : Nat) : Client :=
-  let cl' := { cl with scaled := scaleAfter cfg cl.scaled s }
-  if cfg.width / s = 0 ∧ cfg.height / s ≠ 0 ∧ ¬ (cfg.width / s = cfg.width ∧ cfg.height / s = cfg.height) then
-    { cl' with outOfModel := true }
-  else cl'
+  { cl with scaled := scaleAfter cfg cl.scaled s }
 
 def handleNormal (cfg : Cfg) (owner : Option Nat) (cl : Client) :
     Msg → Client × Option Nat × List Callback
@@ -394,6 +389,11 @@ def Server.peerEof (s : Server) (i : Nat) : Server :=
   | some c => s.put (closeCl c)
   | none => s
 
+/-- `(tv.tv_sec-start.tv_sec)*1000 + (tv.tv_usec-start.tv_usec)/1000` (C division truncates) -/
+def elapsedMs (now : Nat) (cl : Client) : Int :=
+  (((now / 1000000 : Nat) : Int) - (cl.startSec : Int)) * 1000 +
+    Int.tdiv (((now % 1000000 : Nat) : Int) - (cl.startUsec : Int)) 1000
+
 /-- the pointer part of `rfbUpdateClient` (main.c) at time `now` (µs) -/
 def updatePtr (cfg : Cfg) (now : Nat) (cl : Client) : Client × List Callback :=
   match cl.lastPtr with
@@ -406,8 +406,7 @@ def updatePtr (cfg : Cfg) (now : Nat) (cl : Client) : Client × List Callback :=
       if cl.startUsec = 0 then
         ({ cl with startSec := sec, startUsec := if usec = 0 then 1 else usec }, [])
       else
-        let el : Int := ((sec : Int) - cl.startSec) * 1000 + Int.tdiv ((usec : Int) - cl.startUsec) 1000
-        if sec < cl.startSec ∨ el > cfg.deferPtr then
+        if sec < cl.startSec ∨ elapsedMs now cl > cfg.deferPtr then
           ({ cl with startUsec := 0, lastPtr := none }, [.ptr cl.id cl.lastPtrButtons x y])
         else (cl, [])
 
